@@ -64,9 +64,9 @@ CLAIMS = {
   note="Depth of the call tree is 3; the error-raising statement is one fixed ill-typed division.",
   tech="bounded-exhaustive enumeration of script sets (call trees) on the real engine vs reference interpreter"),
  "C14": dict(cat="fault_enumeration", design="6 C14",
-  text="For every loop-bearing program of the bound (and nested empty infinite loops, also inside use()d scripts) on both interpreters, the exit signal is made to fire first at EVERY poll index k = 1..N; each interrupted run must return nil with exactly the point and probe-trace prefix the uninterrupted run had at poll k. This enumerates all fault points of the only environment answer the library asks for.",
+  text="For every loop-bearing program of the bound (and nested empty infinite loops, also inside use()d scripts) on both interpreters, the exit signal is made to fire first at EVERY poll index k = 1..N; each interrupted run must return nil with exactly the point and probe-trace prefix the uninterrupted run had at poll k. This enumerates all fault points of the only environment answer the library asks for. Second part (instrumented build, every wait for a lock is reported by the sync shim): run A of a loaded script is suspended inside its poll j, run B of the same loaded script runs with its signal true from poll k on, for every (j, k): B returns by its own steps — it never waits for a lock held across A's poll — with the result it has alone, then A finishes as the prefix-at-j run; control passes by channel hand-off only, so every execution is deterministic.",
   note="Horizon 40 (quick) / 200 (thorough) polls for non-terminating programs. A run that does not return 20 s after being told to stop is re-run and then reported (the only wall-clock decision).",
-  tech="exhaustive fault-point enumeration (every poll index of the cancellation signal) on the real interpreters with a prefix oracle"),
+  tech="exhaustive fault-point enumeration (every poll index of the cancellation signal; every pair of suspension point of one run and signal point of a second run) on the real interpreters with a prefix oracle"),
  "C01": dict(cat="model_checking", design="6 C01",
   text="About 5 million load-accepted programs (every expression form x 25 syntactic roles, every builtin x every argument list its real checker accepts) are each run on 4 input points on the real interpreter with panics recovered and fatal worker deaths detected; the oracle is exactly the property: control returns, with success or an error that names the script and carries a position. The enumeration is complete for the stated alphabet, so a crashing cell of the (form, operand type, point) space cannot be missed.",
   note="Alphabet: 31 atoms, 14 index keys, 14 slice bounds, 55 argument candidates; deeper nesting only in the thorough tier. Go runtime fatal errors are detected by worker death, not recovered.",
@@ -92,8 +92,8 @@ def main():
      "setup_cmd":"./vcheck.sh build",
      "hooks":{"guard":"verif","enable":"go build -tags verif -overlay <generated by mc/overlay from the current /repo sources> (no hook is committed to /repo; see DESIGN.md section 7)",
        "baseline_off_cmd":"cd /repo && GOFLAGS=-mod=mod go test -vet=off -count=1 ./...","source_commits":[],"add_only":True},
-     "engines":[{"name":"vcheck","path":"mc/cmd/vcheck","serves_properties":sorted(x for x in CLAIMS if x not in ("C09","C15","C16")),"kind_free_text":"bounded-exhaustive enumeration of inputs/programs/histories on the real code (plain build) against a Go reference model; explicit-state search; workers sharded over 16 processes"},
-       {"name":"vcheck-inst","path":"mc/cmd/vcheck (built with -tags verif -overlay from mc/cmd/mkoverlay)","serves_properties":sorted(x for x in CLAIMS if x in ("C09","C15","C16")),"kind_free_text":"same binary built with a generated overlay: controlled map iteration in the loader, sync.Pool shim with harness-chosen answers and scheduling points, pool accessors; cooperative scheduler / DFS explorer"}],
+     "engines":[{"name":"vcheck","path":"mc/cmd/vcheck","serves_properties":sorted(x for x in CLAIMS if x not in ("C09","C14","C15","C16")),"kind_free_text":"bounded-exhaustive enumeration of inputs/programs/histories on the real code (plain build) against a Go reference model; explicit-state search; workers sharded over 16 processes"},
+       {"name":"vcheck-inst","path":"mc/cmd/vcheck (built with -tags verif -overlay from mc/cmd/mkoverlay)","serves_properties":sorted(x for x in CLAIMS if x in ("C09","C14","C15","C16")),"kind_free_text":"same binary built with a generated overlay: controlled map iteration in the loader, sync.Pool shim with harness-chosen answers and scheduling points, pool accessors; cooperative scheduler / DFS explorer"}],
      "checks":[],
      "not_applicable":[]
     }
@@ -102,7 +102,7 @@ def main():
         if i in CLAIMS:
             c=CLAIMS[i]
             m["checks"].append({"property_id":i,"quick_cmd":f"./vcheck.sh {i} quick","thorough_cmd":f"./vcheck.sh {i} thorough","evidence_file":f"evidence/{i}.json",
-              "replay_cmd_template":"./vcheck.sh replay {path}","engine":"vcheck-inst" if i in ("C09","C15","C16") else "vcheck",
+              "replay_cmd_template":"./vcheck.sh replay {path}","engine":"vcheck-inst" if i in ("C09","C14","C15","C16") else "vcheck",
               "level_claimed":{"category":c["cat"],"text":c["text"],"design_ref":c["design"]},"level_note":c["note"],"technique":c["tech"]})
         else:
             m["not_applicable"].append({"property_id":i,"reason":"check not built yet (work in progress, see DESIGN.md section 11)"})
